@@ -169,13 +169,16 @@ def sock_case(draw):
     endpoint = draw(st.one_of(st.just("/healthz"), ENDPOINT))
     steps = []
     for _ in range(draw(st.integers(2, 8))):
-        k = draw(st.sampled_from(["probe", "probe", "bad", "bad", "fail-consumer", "open-early", "many", "job"]))
+        k = draw(st.sampled_from(["probe", "probe", "bad", "bad", "fail-consumer", "open-early", "many", "job", "silent"]))
         if k == "bad":
             steps.append({"k": "bad", "req": draw(request_bytes(endpoint)), "cuts": sorted(draw(st.lists(st.integers(0, 400), max_size=3)))})
         elif k == "probe":
             steps.append({"k": "probe", "what": draw(st.sampled_from(["endpoint", "endpoint", "other-path", "post"]))})
         elif k == "many":
             steps.append({"k": "many", "n": draw(st.integers(5, 40))})
+        elif k == "silent":
+            # connections that are opened and closed without a single byte (port scanners, TCP health probes) - many of them
+            steps.append({"k": "silent", "n": draw(st.sampled_from([3, 130, 300]))})
         else:
             steps.append({"k": k})
     steps.append({"k": "probe", "what": "endpoint"})
@@ -368,6 +371,20 @@ async def _sock(case: dict, out: Outcome):
                 if bad:
                     out.v("wrong-answer", f"{len(bad)} of {stp['n']} concurrent probes failed: {bad[0]!r}", what="many",
                           want=503 if failed else 200)
+            elif k == "silent":
+                for _ in range(stp["n"]):
+                    r_, w_ = await asyncio.wait_for(asyncio.open_connection("127.0.0.1", port), 3.0)
+                    w_.close()
+                    try:
+                        await asyncio.wait_for(w_.wait_closed(), 1.0)
+                    except (asyncio.TimeoutError, OSError):
+                        pass
+                await asyncio.sleep(0.05)
+                code, raw = await http(port, good)
+                malformed_then_ok += 1
+                if code != (503 if failed else 200):
+                    out.v("knocked-over", f"after {stp['n']} connections that sent nothing a well-formed probe answered {code} ({raw[:60]!r}), "
+                          f"expected {503 if failed else 200}", kind="silent-connections")
             elif k == "job":
                 enq += 1
                 await Job("work", queue="qok", id_=f"job{enq}", _connection=conn).enqueue()
